@@ -1041,7 +1041,38 @@ def rule_band_position(chk, fb):
                    detail="predicate reads %s; the object's position is %s%s" % (sorted(read), sorted(want), "" if read == want else " - an object whose cell lies outside the band can be deleted (or one inside kept)"))
 
 
+GRID_MAX = (16384, 1048576)
+
+
+def rule_grid_limits_inclusive(chk, fb, rid="C07.h"):
+    """Row 1048576 and column 16384 (XFD) are cells: a half-open range `a..MAX` used as a membership test leaves the last
+    row / column out (references in the last row are then not parsed, not moved, not merged)."""
+    r = chk.rule(
+        rid,
+        "grid limits are inclusive: no membership test `Range::contains` on a half-open range whose end is exactly the grid maximum (16384 / 1048576); `..=MAX`, `a..MAX + 1` and comparisons `> MAX` are the inclusive forms",
+        floor=1,
+    )
+    n = 0
+    bad = []
+    for d, b in sorted(fb.mir.items()):
+        if b["file"].startswith("tests"):
+            continue
+        fl = None
+        for bi, t in fb.calls_in(b):
+            if t.get("fn", "").split("::")[-1] == "contains" and t.get("impl_self", "").startswith("std::ops::Range<"):
+                fl = fl or Flow(fb, b)
+                n += 1
+                consts = {a[1] for a in fl.atoms(t["args"][0]) if a[0] == "const"}
+                hit = sorted(c for c in consts if c in GRID_MAX)
+                if hit:
+                    bad.append("%s:%s (end %s)" % (b["file"], t.get("ln"), hit[0]))
+                    chk.touch(d)
+                    chk.ob(r, "%s:contains" % d.split("::{closure")[0], False, where="%s:%s" % (b["file"], t.get("ln")), detail="half-open range ending at the grid maximum %s: the last row / column is excluded" % hit[0])
+    chk.ob(r, "half-open-membership-tests", not bad, where="src", detail="%d `Range::contains` call(s) inspected; ending exactly at a grid maximum: %s" % (n, bad or "none"))
+
+
 def run(chk, fb, tier):
+    rule_grid_limits_inclusive(chk, fb)
     rule_scalar(chk, fb)
     rule_range(chk, fb, tier)
     rule_fanout(chk, fb, tier)
